@@ -59,11 +59,25 @@ def _my_cnot1(wires, **__):
 
 @qp.register_resources({qp.RY: 2, qp.CZ: 1, qp.Z: 2})
 def _my_cnot2(wires, **__):
-    qp.RY(np.pi / 2, wires[1])
+    # H = RY(pi/2) Z as matrices, i.e. Z first (the variant printed in the transform's docstring applies RY first and is
+    # CNOT only up to a Z on the control wire); RULE_SELFCHECK below lets TLC confirm every custom rule before it is used
     qp.Z(wires[1])
+    qp.RY(np.pi / 2, wires[1])
     qp.CZ(wires=wires)
-    qp.RY(np.pi / 2, wires[1])
     qp.Z(wires[1])
+    qp.RY(np.pi / 2, wires[1])
+
+
+def rule_selfcheck_cases():
+    """CircuitEq cases [operator] vs [what the custom rule emits]: the rules handed to fixed_decomps / alt_decomps must be exact"""
+    out = []
+    for op, rule in ((qp.CNOT([0, 1]), _my_cnot1), (qp.CNOT([0, 1]), _my_cnot2), (qp.IsingXX(np.pi / 2, [0, 1]), _isingxx_decomp),
+                     (qp.IsingXX(3 * np.pi / 2, [1, 0]), _isingxx_decomp)):
+        with qp.queuing.AnnotatedQueue() as q:
+            rule(*op.data, wires=op.wires)
+        wpos = wire_positions([0, 1])
+        out.append({"n": 2, "a": [encode_op(op, wpos, 4)], "cs": [], "bs": [{"b": [encode_op(o, wpos, 4) for o in q.queue], "rel": "exact", "perm": []}]})
+    return out
 
 
 def custom_kwargs(kind):
@@ -260,7 +274,7 @@ def apply_case(case):
 
 def gen_cases(tier, seed, sets, opts):
     rng = random.Random(1200 + seed)
-    ncases = 420 if tier == "quick" else 9000
+    ncases = 320 if tier == "quick" else 2000
     uni = [s for s in sets if s["universal"]]
     nonuni = [s for s in sets if not s["universal"] and len(s["gs"]) >= 2]
     predef = list(PREDEF_NAMES)
@@ -313,6 +327,15 @@ def gen_cases(tier, seed, sets, opts):
         n = rng.choice([2, 3, 3, 4, 4])
         L = rng.randint(1, 4)
         circ = [random_op(rng, n, o["custom"]) for _ in range(L)]
+        if o["graph"] and o["ww"] != 0 and o["mx"] < 0 and rng.random() < 0.35:      # operators whose rules can use work wires
+            n = 4
+            q = rng.choice([2, 3, 3])
+            ws = rng.sample(range(1, n + 1), q + 1)
+            circ = circ[:2] + [rec("MultiControlledX", ws, [], [rng.randint(0, 1) for _ in range(q)]) if rng.random() < 0.6 else
+                               dict(rec(rng.choice(["RX", "RZ", "PhaseShift", "Hadamard", "S"]), ws, []), mods=[{"t": "ctrl", "cv": [1] * q}])]
+            if circ[-1]["g"] in ("RX", "RZ", "PhaseShift"):
+                circ[-1]["p"] = [rng.choice(ANG)]
+            circ = [g for g in circ if all(w <= n for w in g["w"])]
         if o["custom"] == "nullphase" and rng.random() < 0.7:
             circ.append(rec(rng.choice(["T", "S", "Hadamard"]), [rng.randint(1, n)]))
         cfg = {"graph": bool(o["graph"]), "gs": names, "ww": o["ww"], "mx": o["mx"], "custom": o["custom"], "stopk": o["stopk"]}
@@ -424,13 +447,15 @@ def run(tier, seed):
                 skip("garbage work wires")
                 done = True
                 break
-            if ntot > (5 if tier == "quick" else 6) or (recs is not None and len(recs) * (1 << (2 * ntot)) > (60000 if tier == "quick" else 400000)):
+            budget = (60000 if lv == 4 else 16000) if tier == "quick" else 400000
+            nw = ntot - n
+            zero_like = any(s_.endswith("zero") or s_ == "zero" for s_, _ in dyn.values())
+            cs_ = _cols(ntot, nw) if (nw and zero_like) else []
+            if ntot > (5 if tier == "quick" else 6) or (recs is not None and len(recs) * (1 << ntot) * (len(cs_) or (1 << ntot)) > budget):
                 skip("too wide / long")
                 done = True
                 break
-            nw = ntot - n
-            zero_like = any(s_.endswith("zero") or s_ == "zero" for s_, _ in dyn.values())
-            cs = _cols(ntot, nw) if (nw and zero_like) else []
+            cs = cs_
             if recs is not None:
                 ecases[lv].append({"n": ntot, "a": a, "cs": cs, "bs": [{"b": recs, "rel": case["rel"], "perm": []}]})
                 emeta[lv].append((replay, None, tmeta[-1][2] if obs["est"] is None else [repr(o) for o in out.operations][:60], case["rel"], cs))
@@ -486,6 +511,10 @@ def run(tier, seed):
                                          f"{m[2] if m[2] is not None else m[1]} {m[1] if m[2] is not None else ''} warned {traces[i]['warned']}",
                                   replay=m[0]))
     nneg_t = sum(1 for i in neg_t if tv[i] != "ok")
+    # ---- the custom rules handed to fixed_decomps / alt_decomps are confirmed exact by TLC first (same batch)
+    for sc in rule_selfcheck_cases():
+        ecases[4].append(sc)
+        emeta[4].append("SELF")
     # ---- TLC: exact unitaries
     n_exact = n_bridge = 0
     est_ = {"distinct": 0, "generated": 0}
@@ -502,8 +531,12 @@ def run(tier, seed):
             m = emeta[lv][ti]
             if m is None:
                 continue
+            if m == "SELF":
+                if clause != "ok":
+                    raise lib.MachineryError(f"a custom decomposition rule of the harness is not exact: {ecases[lv][ti]}")
+                continue
             replay, flt, outs, relname, cs = m
-            g = "graph" if replay["config"]["graph"] else "legacy"
+            g = ("graph" if replay["config"]["graph"] else "legacy") + (":nullphase" if replay["config"]["custom"] == "nullphase" else "")
             if clause == "overflow":
                 raise lib.MachineryError("ring overflow in CircuitEq")
             if flt is not None:
